@@ -344,6 +344,36 @@ Proof.
 Qed.
 Print Assumptions C08_float32_exact_on_grid.
 
+(* ---- round 4: geometry_from_meta with an arbitrary per-entry function (geometry_by); `geometry` is
+   the instance site_crxy g e, so the sorting theorems hold for every such function: permutation,
+   joint re-indexing, order ---- *)
+Theorem C08_geometry_by_sorted : forall f g sites split t' inds,
+  geometry_by f g sites split true = Some (t', inds) ->
+  exists t, geometry_by f g sites split false = Some (t, zrange (gsize t)) /\
+    inds = lexsort t /\ Permutation inds (zrange (gsize t)) /\
+    columns t' = map (gather inds) (columns t) /\ g_ind t' = inds /\
+    forall i j, 0 <= i -> i < j -> j < Z.of_nat (gsize t) ->
+      ordered_at (g_shank t') (g_row t') (g_col t') (g_ind t') i j.
+Proof. exact geometry_by_sorted. Qed.
+Print Assumptions C08_geometry_by_sorted.
+
+Theorem C08_geometry_by_instance : forall g e sites split srt,
+  geometry_by (site_crxy g e) g sites split srt = geometry g e sites split srt.
+Proof. exact geometry_by_spec. Qed.
+Print Assumptions C08_geometry_by_instance.
+
+(* ---- F-C08-b, faithfully (round 4): what the code computes for the NPultra geometry-map entry of grid
+   site (col c, row r): col = c, 6 * row = 6 r + 20 (never a multiple of 6: the row is fractional),
+   x = 6 c, y = 6 r + 20 — against (c, r, 6 c, 6 r) from the shank-map entry: y is 20 um off.  The
+   sorted geometry of such a table (geometry_npu_geom, rows carried as 6 * row) is still a jointly
+   permuted, ordered description (C08_geometry_by_sorted) ---- *)
+Theorem C08_npultra_geom_map_values : forall c r sh f,
+  npu_geom_crxy (geom_entry NPU (sh, c, r, f)) = Some (c, 6 * r + 20, 6 * c, 6 * r + 20) /\
+  (6 * r + 20) mod 6 = 2 /\
+  site_crxy NPU ShankMap (sh, c, r, f) = Some (c, r, 6 * c, 6 * r).
+Proof. exact npu_geom_entry. Qed.
+Print Assumptions C08_npultra_geom_map_values.
+
 (* ---- non-vacuity: concrete inputs meeting the hypotheses, with the model's values ---- *)
 Example C08_example_sorted_split :
   geometry NP24 ShankMap [(1, 0, 5, 1); (0, 1, 5, 1); (1, 1, 5, 0); (0, 0, 5, 1)] (Some 1) true
@@ -421,3 +451,9 @@ Example C08_example_split_commutes :
     lexsort t = [1; 3; 4; 2; 0] /\ lexsort t' = [2; 1; 0] /\ where_eq 1 (g_shank t) = [0; 2; 4] /\
     map (znth (where_eq 1 (g_shank t))) (lexsort t') = [4; 2; 0].
 Proof. vm_compute. eexists. eexists. repeat split. Qed.
+
+Example C08_example_npultra_geom :
+  geometry_npu_geom (map (geom_entry NPU) [(0, 1, 2, 1); (0, 7, 2, 1); (0, 3, 0, 1)]) None true
+  = Some (mkgeom [0; 0; 0] [3; 7; 1] [20; 32; 32] [1; 1; 1] [18; 42; 6] [20; 32; 32] [1; 0; 0] [0; 1; 0] [2; 1; 0],
+          [2; 1; 0]).
+Proof. vm_compute. reflexivity. Qed.
